@@ -54,6 +54,10 @@ pub struct SessionSpec {
     /// an expiry clean-up by another process); managers cached in this process still have the files registered
     #[serde(default)]
     pub clear_cache_before: bool,
+    /// the session is a dry run (FileUploadSession::dry_run): everything is computed, nothing is stored, and nothing
+    /// it produced may influence later sessions
+    #[serde(default)]
+    pub dry_run: bool,
 }
 
 #[derive(Clone, Debug, Serialize, Deserialize, PartialEq)]
@@ -326,11 +330,20 @@ pub fn gen(seed: u64, run: u64, focus: &str, tier: Tier) -> Plan {
             files,
             foreign: false,
             clear_cache_before: false,
+            dry_run: false,
         });
     }
     match focus {
         "C16" => {
             plan.enumerate_faults = true;
+            // a dry run before a real session (dry-run calls never reach the store, so the enumeration of store calls
+            // is unaffected)
+            if plan.sessions.len() >= 2 {
+                let mut drng = Rng::stream(seed, run, "session-dry");
+                if drng.chance(1, 3) {
+                    plan.sessions[0].dry_run = true;
+                }
+            }
         },
         _ => {},
     }
@@ -353,6 +366,13 @@ pub fn gen(seed: u64, run: u64, focus: &str, tier: Tier) -> Plan {
         for ss in plan.sessions.iter_mut().skip(1) {
             if frng.chance(1, if focus == "C11" { 6 } else { 12 }) {
                 ss.clear_cache_before = true;
+            }
+        }
+        // a dry run somewhere before the last session
+        let n = plan.sessions.len();
+        for ss in plan.sessions.iter_mut().take(n - 1) {
+            if !ss.foreign && frng.chance(1, 8) {
+                ss.dry_run = true;
             }
         }
     }
@@ -608,6 +628,7 @@ pub fn run_world(plan: &Plan, faults: &[FaultSpec], trace: bool) -> (World, Scra
             {
                 let mut s = st.lock().unwrap();
                 s.session = si;
+                s.dry = ss.dry_run;
                 s.cache_dir = cfg.shard_config.cache_directory.clone();
                 let n = s.seq;
                 s.log(format!("session {si} begins at event {n}"));
@@ -630,7 +651,8 @@ pub fn run_world(plan: &Plan, faults: &[FaultSpec], trace: bool) -> (World, Scra
                 }
             }
             let hung = out.hung;
-            if matches!(out.finalize, Some(Ok(_))) {
+            st.lock().unwrap().dry = false;
+            if matches!(out.finalize, Some(Ok(_))) && !ss.dry_run {
                 for (fi, fo) in out.files.iter_mut().enumerate() {
                     download_checks(&store, &cfg, &dir, fo, format!("s{si}f{fi}-after-session"), &[]).await;
                 }
@@ -645,7 +667,7 @@ pub fn run_world(plan: &Plan, faults: &[FaultSpec], trace: bool) -> (World, Scra
         // final pass: every file of every successful session, whole and by ranges
         let n_sessions = outs.len();
         for (si, out) in outs.iter_mut().enumerate() {
-            if !matches!(out.finalize, Some(Ok(_))) {
+            if !matches!(out.finalize, Some(Ok(_))) || plan2.sessions[si].dry_run {
                 continue;
             }
             for (fi, fo) in out.files.iter_mut().enumerate() {
@@ -679,7 +701,12 @@ async fn run_session(
     let mut out = SessionOutcome::default();
     let tp = xet_threadpool::ThreadPool::from_current_runtime();
     let client: Arc<dyn cas_client::Client + Send + Sync> = store.clone();
-    let session = match data::FileUploadSession::verif_new_with_client(cfg.clone(), tp, client).await {
+    let created = if ss.dry_run {
+        data::FileUploadSession::verif_new_with_client_dry_run(cfg.clone(), tp, client).await
+    } else {
+        data::FileUploadSession::verif_new_with_client(cfg.clone(), tp, client).await
+    };
+    let session = match created {
         Ok(s) => s,
         Err(e) => {
             out.new_err = Some(format!("{e}"));
@@ -1100,6 +1127,21 @@ pub fn evaluate(ctx: &EvalCtx, w: &World, rep: &mut RunReport) {
             }
         }
 
+        if ss.dry_run {
+            // a dry run computes pointers and metrics (checked above) and stores nothing: nothing of it reached the
+            // store (the client accepted and dropped the uploads), so it takes no part in the store-side oracles and
+            // obliges no later session; what it may have left behind shows in the later sessions' own checks
+            if call_errs > 0 && fault_free {
+                rep.violate("C01.a", "dry-run-error", format!("session {si} (dry run): a call failed although no fault was injected"));
+            }
+            rep.count("probe:dry_run_sessions", 1);
+            if ss.clear_cache_before {
+                stored_by_cache.entry(ss.cache_id).or_default().clear();
+                rep.count("fault:shard_cache_cleared_between_sessions", 1);
+            }
+            continue;
+        }
+
         // ---- downloads (C01; C16.c when faults were injected)
         let all_calls_ok = call_errs == 0 && fin_ok;
         for fo in &so.files {
@@ -1504,7 +1546,7 @@ impl Engine for SessionEngine {
             _ => rep.nontrivial,
         };
         rep.sample = Some(json!({
-            "sessions": p.sessions.iter().map(|s| json!({"files": s.files.len(), "cache": s.cache_id, "salt": s.salt_id, "global_dedup": s.global_dedup, "other_process": s.foreign, "cache_cleared_before": s.clear_cache_before})).collect::<Vec<_>>(),
+            "sessions": p.sessions.iter().map(|s| json!({"files": s.files.len(), "cache": s.cache_id, "salt": s.salt_id, "global_dedup": s.global_dedup, "other_process": s.foreign, "cache_cleared_before": s.clear_cache_before, "dry_run": s.dry_run})).collect::<Vec<_>>(),
             "files": n_files, "latency_mode": p.latency_mode, "store_calls": {"put": n_put, "upload_shard": n_shard, "query": n_query},
             "enumerate_faults": p.enumerate_faults, "explicit_faults": p.faults.len(),
         }));
@@ -1608,7 +1650,7 @@ impl Engine for SessionEngine {
             _ => "at least two files with more than one feed call overlapped in event-sequence time and at least one dedup hit lay on a downloaded file's path",
         };
         let mgr = if focus == "C11" || focus == "C01" { " One C11 run in five (C01: one in ten) instead drives one ShardFileManager from 2-4 concurrent callers (OS threads with their own runtimes under the cooperative one-thread-at-a-time scheduler, switching at the shard write-out points, between operations and whenever a caller finds a lock held): adds of xorb and file records, flushes (explicit and size-triggered) and queries; every record whose add returned Ok must be in a shard file of the directory after the final flush and be found by the manager (non-trivial there: a caller found a lock held and at least two shards were written)." } else { "" };
-        format!("Each run: 1-4 upload sessions x 1-8 concurrently cleaned files against one simulated store (real LocalClient behind gates) with seeded contents from an atom pool (twins, extensions, recombinations, in-file repeats, fragmentation patterns, degenerate sizes), seeded feed partitions, seeded latency of every store call on the paused clock, per-process seeded size-limit configuration; one session in eight (C11: one in four) runs as another process sharing the shard-cache directory (own manager objects; its shard files appear in the shared directory afterwards) and before one session in twelve (C11: one in six) the shard cache directory is emptied (cache clear / expiry clean-up; data stored afterwards obliges later sessions again); all oracles of the session family are evaluated after the run.{mgr} Non-trivial: {nt}. Distinct: hash of (latency mode, per-session file/put/shard counts, order of store-call completions).")
+        format!("Each run: 1-4 upload sessions x 1-8 concurrently cleaned files against one simulated store (real LocalClient behind gates) with seeded contents from an atom pool (twins, extensions, recombinations, in-file repeats, fragmentation patterns, degenerate sizes), seeded feed partitions, seeded latency of every store call on the paused clock, per-process seeded size-limit configuration; one session in eight (C11: one in four) runs as another process sharing the shard-cache directory (own manager objects; its shard files appear in the shared directory afterwards) and before one session in twelve (C11: one in six) the shard cache directory is emptied (cache clear / expiry clean-up; data stored afterwards obliges later sessions again); one session in eight before the last is a dry run (the client accepts uploads without storing them; it must leave nothing behind that a later session relies on); all oracles of the session family are evaluated after the run.{mgr} Non-trivial: {nt}. Distinct: hash of (latency mode, per-session file/put/shard counts, order of store-call completions).")
     }
     fn real_vs_stub(&self) -> Value {
         json!({
